@@ -141,7 +141,7 @@ package choquet
 //@   requires [params] typeis(dmp.MethodParameters, choquetParams) && dmp.MethodParameters.(choquetParams).weights != nil
 //@   ensures [one_entry_each] result != nil && len(*result) == len(dmp.ConsideredAlternatives)
 //@   ensures [all_considered_present] forall j int :: 0 <= j && j < len(dmp.ConsideredAlternatives) ==> exists i int :: 0 <= i && i < len(*result) && (*result)[i].Alternative == dmp.ConsideredAlternatives[j]
-//@   ensures [C04 ordered_by_value_then_id] forall i int, j int :: 0 <= i && i < j && j < len(*result) ==> !model.ordered((*result)[j].AlternativeResult, (*result)[i].AlternativeResult)
+//@   ensures [ordered_by_value_then_id] forall i int, j int :: 0 <= i && i < j && j < len(*result) ==> !model.ordered((*result)[j].AlternativeResult, (*result)[i].AlternativeResult)
 
 //@ func (*ChoquetIntegralPreferenceFunc).MethodParameters
 //@   property C20 C03
